@@ -162,38 +162,84 @@ def r1(ctx):
 
 # --------------------------------------------------------------------------- R2
 
+def _loop_over(loop, base_path):
+    """(is a loop over base_path, descending?, order understood?)"""
+    it, desc, ok = loop.iter, False, True
+    while isinstance(it, (ast.Call, ast.Subscript)):
+        if isinstance(it, ast.Subscript):
+            ok = False
+            it = it.value
+            continue
+        name = ap(it.func)
+        if name == "reversed" and len(it.args) == 1:
+            desc = not desc
+        elif name == "sorted" and it.args:
+            rv = kw(it, "reverse")
+            desc = bool(isinstance(rv, ast.Constant) and rv.value)
+            if kw(it, "key") is not None:
+                ok = False
+        elif name in ("list", "tuple", "iter") and len(it.args) == 1:
+            pass
+        else:
+            ok = False
+        if not it.args:
+            break
+        it = it.args[0]
+    return ap(it) == base_path, desc, ok
+
+
+def _callee_of(repo, f, call):
+    """Module-level function of f's module or method of f's class that `call` invokes: (FuncInfo, param names)."""
+    fn = call.func
+    g = None
+    if isinstance(fn, ast.Name):
+        for cand in repo.funcs.get(fn.id, []):
+            if cand.module is f.module and cand.cls is None and cand.parent_fn is None:
+                g = cand
+        params = [a.arg for a in g.node.args.args] if g else []
+    elif isinstance(fn, ast.Attribute) and ap(fn.value) in ("self", "cls") and f.cls is not None:
+        g = repo.lookup_method(f.cls, fn.attr)
+        params = [a.arg for a in g.node.args.args][1:] if g else []
+    if g is None or g == f:
+        return None, []
+    return g, params
+
+
+def _arg_binding(call, params):
+    out = {}
+    for pname, a in zip(params, call.args):
+        out[pname] = a
+    for k in call.keywords:
+        if k.arg in params:
+            out[k.arg] = k.value
+    return out
+
+
 def _inj_loops(repo, ci):
+    """Loops over the tracker's injections deque: [(tracker method, loop, descending, understood, function holding
+    the loop, call in the method that reaches it or None)].  A loop moved into a helper that receives
+    `self.injections` as an argument is found through the call."""
     out = []
     for f in repo.all_funcs:
         if f.cls is None or f.cls != ci or f.parent_fn is not None:
             continue
         for n in walk(f.node, into_defs=True):
-            if not isinstance(n, (ast.For, ast.AsyncFor)):
-                continue
-            it, desc = n.iter, False
-            ok = True
-            while isinstance(it, (ast.Call, ast.Subscript)):
-                if isinstance(it, ast.Subscript):
-                    ok = False
-                    it = it.value
+            if isinstance(n, (ast.For, ast.AsyncFor)):
+                over, desc, ok = _loop_over(n, DEQ)
+                if over:
+                    out.append((f, n, desc, ok, f, None))
+            elif isinstance(n, ast.Call):
+                g, params = _callee_of(repo, f, n)
+                if g is None:
                     continue
-                name = ap(it.func)
-                if name == "reversed" and len(it.args) == 1:
-                    desc = not desc
-                elif name == "sorted" and it.args:
-                    rv = kw(it, "reverse")
-                    desc = bool(isinstance(rv, ast.Constant) and rv.value)
-                    if kw(it, "key") is not None:
-                        ok = False
-                elif name in ("list", "tuple", "iter") and len(it.args) == 1:
-                    pass
-                else:
-                    ok = False
-                if not it.args:
-                    break
-                it = it.args[0]
-            if ap(it) == DEQ:
-                out.append((f, n, desc, ok))
+                for pname, a in _arg_binding(n, params).items():
+                    if ap(a) != DEQ:
+                        continue
+                    for m in walk(g.node, into_defs=True):
+                        if isinstance(m, (ast.For, ast.AsyncFor)):
+                            over, desc, ok = _loop_over(m, pname)
+                            if over:
+                                out.append((f, m, desc, ok, g, n))
     return out
 
 
@@ -226,7 +272,7 @@ def r2_early_exit(ctx, rule_id="C04.R2"):
     ci = _tracker(ctx)
     loops = _inj_loops(repo, ci)
     ctx.floor(rule_id, "loops over InjectionTracker.injections", len(loops), 2)
-    for f, loop, desc, understood in loops:
+    for _owner, loop, desc, understood, f, _call in loops:
         if not understood:
             raise AnalysisError(f"{rule_id}: {f.qual}: iteration order of `{norm(loop.iter)}` not understood")
         elem = loop.target.id if isinstance(loop.target, ast.Name) else None
@@ -283,31 +329,94 @@ def _carry_aliases(f):
     return out
 
 
+def _pass_through_param(g):
+    """Name of the parameter of helper g whose value (plus local steps) g returns; None if not of that shape."""
+    params = [a.arg for a in g.node.args.args]
+    found = set()
+    for r in [n for n in walk(g.node) if isinstance(n, ast.Return)]:
+        if not isinstance(r.value, ast.Name):
+            return None
+        if r.value.id in params:
+            found.add(r.value.id)
+            continue
+        srcs = [st.value for st in stores(g.node, into_defs=False) if st.path == r.value.id and st.kind == "assign"]
+        if len(srcs) != 1 or not (isinstance(srcs[0], ast.Name) and srcs[0].id in params):
+            return None
+        found.add(srcs[0].id)
+    return next(iter(found)) if len(found) == 1 else None
+
+
+def _carry_coeff(repo, f, e, aliases):
+    """Coefficient of the evicted-injection carry in expression e (helper calls that return one of their arguments
+    plus local steps are followed); AnalysisError when the carry is used non-linearly."""
+    def mentions(x):
+        return any(ap(y) in aliases for y in ast.walk(x) if isinstance(y, (ast.Attribute, ast.Name)))
+    if isinstance(e, (ast.Name, ast.Attribute)):
+        return 1 if ap(e) in aliases else 0
+    if isinstance(e, ast.Constant):
+        return 0
+    if isinstance(e, ast.UnaryOp) and isinstance(e.op, ast.USub):
+        return -_carry_coeff(repo, f, e.operand, aliases)
+    if isinstance(e, ast.BinOp) and isinstance(e.op, (ast.Add, ast.Sub)):
+        r = _carry_coeff(repo, f, e.right, aliases)
+        return _carry_coeff(repo, f, e.left, aliases) + (r if isinstance(e.op, ast.Add) else -r)
+    if isinstance(e, ast.Call):
+        g, params = _callee_of(repo, f, e)
+        if g is not None:
+            p = _pass_through_param(g)
+            bound = _arg_binding(e, params)
+            if p is not None and p in bound:
+                rest = [a for k, a in bound.items() if k != p]
+                if not any(mentions(a) for a in rest):
+                    return _carry_coeff(repo, f, bound[p], aliases)
+    if mentions(e):
+        raise AnalysisError(f"{f.qual}: `{norm(e)}` uses the carry in a way the symmetry rule cannot follow")
+    return 0
+
+
 def _shift_stmts(repo, f):
     """[(stmt, var, coeff)] statements that move a local by the evicted-injection carry."""
     out = []
     aliases = _carry_aliases(f)
     for n in walk(f.node):
-        var, lf, sign = None, None, 1
+        var, val, sign = None, None, 1
         if isinstance(n, ast.AugAssign) and isinstance(n.target, ast.Name) and isinstance(n.op, (ast.Add, ast.Sub)):
-            var, lf = n.target.id, _lin0(repo, f, n.value)
+            var, val = n.target.id, n.value
             sign = 1 if isinstance(n.op, ast.Add) else -1
         elif isinstance(n, ast.Assign) and len(n.targets) == 1 and isinstance(n.targets[0], ast.Name):
             if n.targets[0].id in aliases:
                 continue
-            var, lf = n.targets[0].id, _lin0(repo, f, n.value)
+            var, val = n.targets[0].id, n.value
         elif isinstance(n, ast.Return) and n.value is not None:
-            var, lf = "<return>", _lin0(repo, f, n.value)
+            var, val = "<return>", n.value
         if var is None:
             continue
-        if lf is None:
-            if any(ap(x) in aliases for x in ast.walk(n) if isinstance(x, (ast.Attribute, ast.Name))):
-                raise AnalysisError(f"{f.qual}: `{norm(n)}` uses the carry in a non-linear expression")
-            continue
-        c = sum(lf.get(a, 0) for a in aliases) * sign
+        c = _carry_coeff(repo, f, val, aliases) * sign
         if c != 0:
             out.append((n, var, c))
     return out
+
+
+def _call_coeff_into_result(repo, f, call):
+    """Coefficient with which the value of `call` (a helper call in f) enters what f returns."""
+    sym = ap(call)
+    for n in walk(f.node):
+        val, tgt = None, None
+        if isinstance(n, ast.Return) and n.value is not None:
+            val = n.value
+        elif isinstance(n, ast.Assign) and len(n.targets) == 1 and isinstance(n.targets[0], ast.Name):
+            val, tgt = n.value, n.targets[0].id
+        if val is None or not any(x is call for x in ast.walk(val)):
+            continue
+        lf = _lin0(repo, f, val)
+        c = lf.get(sym) if lf is not None else None
+        if c is None:
+            return None
+        if tgt is None:
+            return c
+        outer = _coeff_into_result(repo, f, tgt)
+        return c * outer if outer is not None else None
+    return None
 
 
 def _coeff_into_result(repo, f, var, depth=0, seen=()):
@@ -380,22 +489,23 @@ def r3_symmetry(ctx, rule_id="C04.R3"):
         # per-injection step: a constant step inside the loop, related to the returned ID either directly
         # (`new_id -= 1`) or through a counter that is combined in afterwards (`shift += 1` ... `id - shift`)
         steps = []
-        for lf_, loop, desc, _ok in _inj_loops(repo, ci):
+        for lf_, loop, desc, _ok, g, call in _inj_loops(repo, ci):
             if lf_ != f:
                 continue
+            outer = 1 if call is None else _call_coeff_into_result(repo, f, call)
             for n in walk(loop):
                 if isinstance(n, ast.AugAssign) and isinstance(n.target, ast.Name) and isinstance(n.op, (ast.Add, ast.Sub)):
-                    coeff = _coeff_into_result(repo, f, n.target.id)
-                    if coeff is not None:
-                        steps.append((n, coeff))
+                    coeff = _coeff_into_result(repo, g, n.target.id)
+                    if coeff is not None and outer is not None:
+                        steps.append((n, coeff * outer, g))
         ctx.ob(rule_id, f"{f.qual}: steps once per counted injection", len(steps) >= 1, f.where,
                "no per-injection step feeding the returned ID inside a loop over injections")
-        for n, coeff in steps:
-            lf = _nz(_lin(repo, f, n.value))
+        for n, coeff, g in steps:
+            lf = _nz(_lin(repo, g, n.value))
             k = lf.get(1) if lf is not None and set(lf) <= {1} else None
             if k is not None:
                 k = (-k if isinstance(n.op, ast.Sub) else k) * coeff
-            ctx.ob(rule_id, f"{f.qual}: `{norm(n)}` moves the ID by {want:+d} per injection", k == want, ctx.w(f, n),
+            ctx.ob(rule_id, f"{f.qual}: `{norm(n)}` moves the ID by {want:+d} per injection", k == want, ctx.w(g, n),
                    f"effective step is {k}: every injected ID at or below shifts the translation by exactly one")
         if meth == "get_original_id":
             params = [a.arg for a in f.node.args.args if a.arg != "self"]
